@@ -1244,7 +1244,14 @@ theorem KindOk.apiMultiOp {row : OpRow} {maps : List MapObj} {m' : MapObj}
   obtain ⟨first, rest, rfl, _, _, h3, _, hcase⟩ := apiMultiOp_ok hr
   have hf := h first (List.mem_cons_self ..)
   rcases hcase with ⟨hk, _, _⟩ | ⟨hk, _, _⟩
-  · exact (MapObj.KindOk_congr hk h3).2 hf
+  · unfold multiKindE at hk
+    split at hk
+    · rename_i d hd
+      apply kindOk_plain hk
+      intro hb
+      rw [hb] at hd
+      exact absurd hd hrow
+    · exact (MapObj.KindOk_congr hk h3).2 hf
   · unfold multiKindOut at hk
     split at hk
     · rename_i d hd
